@@ -19,7 +19,8 @@ def library_dirs(ctx):
             shutil.rmtree(d, ignore_errors=True); os.makedirs(d)
             for lib, (name, val) in files.items():
                 with open(os.path.join(d, lib + ".sld"), "w") as f:
-                    f.write("(define-library (%s) (import (scheme base)) (export %s) (begin (define %s %d)))\n" % (lib, name, name, val))
+                    f.write("(define-library (%s) (import (scheme base)) (export %s) (begin (define-syntax m (syntax-rules () ((m a) (list 'lib-%s)))) (define %s (car (cons %d (m 0))))))\n"
+                            % (lib, name, who, name, val))
             LIBDIRS[who] = d
     return LIBDIRS
 
